@@ -290,6 +290,12 @@ Qed.
 Lemma ns_mut_list (l : list nat) f : (forall st, ns_stage st -> ns_stage (f st)) -> Forall op_ns (concat (map (fun j => c_mutate j f) l)).
 Proof. intros Hf. induction l; simpl; constructor; [exact Hf|assumption]. Qed.
 
+Lemma Forall_concat' {A} (P : A -> Prop) ls : Forall (Forall P) ls -> Forall P (concat ls).
+Proof. induction 1 as [|l ls Hl _ IH]; simpl; [constructor|]. apply Forall_app. split; assumption. Qed.
+
+Lemma ns_muts (l : list nat) f : (forall st, ns_stage st -> ns_stage (f st)) -> Forall (Forall op_ns) (map (fun j => c_mutate j f) l).
+Proof. intros Hf. induction l; simpl; constructor; [constructor; [exact Hf|constructor]|assumption]. Qed.
+
 Lemma ns_jump s id i tg c : NS (handle_jump s id i tg c).
 Proof.
   unfold NS, handle_jump. destruct (get_stage s i) as [src|]; [|constructor].
@@ -297,18 +303,23 @@ Proof.
   destruct (get_stage s tg) as [tgt|]; [|ns_list].
   destruct (jump_exhausted _ _); [ns_list|].
   cbn [h_commits ok]. constructor; [|constructor].
-  unfold txn. rewrite !concat_app. repeat (apply Forall_app; split).
-  - apply ns_mut_list. intros st _. apply ns_reset.
-  - apply ns_mut_list. intros st _. apply ns_not. simpl. discriminate.
+  unfold txn. apply Forall_concat'.
+  assert (forall l : list nat, Forall (Forall op_ns) (map (fun j => c_mutate j reset_for_retry) l)) as Hr
+    by (intros l; apply ns_muts; intros st _; apply ns_reset).
+  repeat (apply Forall_app; split).
+  - match goal with |- Forall _ (flat_map _ ?l) => generalize l end. intros l0.
+    induction l0 as [|j l0 IH]; simpl; [constructor|].
+    constructor; [constructor; [cbn [op_ns]; intros st _; apply ns_reset|constructor]|]. apply Forall_app. split; [apply Hr|exact IH].
+  - apply ns_muts. intros st _. apply ns_not. simpl. discriminate.
   - match goal with |- context [if ?a then [] else _] => destruct a end; [constructor|].
-    match goal with |- context [if ?a then _ else _] => destruct a end; simpl; (constructor; [|constructor]); cbn [op_ns]; intros st _.
-    + apply (ns_same (reset_for_retry st)); [apply ns_reset|reflexivity|reflexivity].
-    + apply ns_not. simpl. discriminate.
-  - simpl. constructor; [|repeat constructor]. cbn [op_ns]. intros st _.
-    apply (ns_same (reset_for_retry st)); [apply ns_reset|reflexivity|reflexivity].
-  - repeat constructor.
-  - repeat constructor.
+    match goal with |- context [if ?a then _ else _] => destruct a end.
+    + constructor; [|apply Hr]. constructor; [|constructor]. cbn [op_ns]. intros st _.
+      apply (ns_same (reset_for_retry st)); [apply ns_reset|reflexivity|reflexivity].
+    + constructor; [|constructor]. constructor; [|constructor]. cbn [op_ns]. intros st _. apply ns_not. simpl. discriminate.
   - constructor.
+    + constructor; [|constructor]. cbn [op_ns]. intros st _.
+      apply (ns_same (reset_for_retry st)); [apply ns_reset|reflexivity|reflexivity].
+    + apply Forall_app. split; [apply Hr|]. repeat constructor.
 Qed.
 
 Theorem ns_handle orc s r : ns_ok s -> NS (handle orc s r).
